@@ -24,7 +24,7 @@ EXHAUSTIVE = "split_sync over all 65536 words x 16 bits"
 
 def gen_cases(seed, tier):
     cases = [{"cls": "words", "layout": lay, "seed": seed, "_w": 1} for lay in ("natural", "shuffled", "column", "strided", "chunks")]
-    n = 60 if tier == "quick" else 1500
+    n = 60 if tier == "quick" else 6000
     cases += [{"cls": "imec-file", "seed": seed * 1000 + i, "_w": 2} for i in range(n)]
     cases += [{"cls": "nidq-file", "seed": seed * 1000 + i, "_w": 2} for i in range(n)]
     cases += [{"cls": "fronts", "seed": seed * 1000 + i, "n": 30, "_w": 1} for i in range(n)]
